@@ -83,6 +83,8 @@ def supported(cfg, world, t, top=True, _seen=None) -> bool:
         if k in ("cls", "td") and x[1] not in _seen:
             _seen.add(x[1])
             for f in world["classes"][x[1]]["fields"]:
+                if f.get("bare_final") and (not cfg["gen"] or cfg["tuple"]):
+                    return False  # bare Final is understood by the generated dict hooks only
                 if f["ty"] is not None and not supported(cfg, world, f["ty"], False, _seen):
                     return False
     return True
@@ -173,6 +175,21 @@ class Gen:
                 if r.random() < 0.15:
                     f["kw_only"] = True
             fields.append(f)
+        if kind in ("attrs", "dc") and r.random() < 0.2:
+            # bare `Final` attributes with plain defaults: cattrs dispatches on the class of the default (generated
+            # dict hooks only); the model sees `Final[<class of the default>]`.  Several per class, of different classes.
+            cands = [f for f in fields if f["ty"] is not None and f["dflt"] is None and f["init"]]
+            r.shuffle(cands)
+            prims, enums = list(PRIMS), [("enum", e) for e in range(len(w["enums"]))]
+            r.shuffle(prims)
+            r.shuffle(enums)
+            bases = prims[:1] + enums + prims[1:]
+            if r.random() < 0.5:
+                r.shuffle(bases)
+            for f, base in zip(cands[: r.randint(1, 3)], bases):  # declaration order of `cands` is shuffled above
+                f["ty"] = ("final", base)
+                f["dflt"] = ("c", self.value(w, base, 0))
+                f["bare_final"] = True
         recursive = None
         if self.recursive and fields and r.random() < 0.3:
             # a recursive class: one attribute refers to the class itself (realised with typing.Self) through an
@@ -184,6 +201,7 @@ class Gen:
             f["ty"] = shape
             f["dflt"] = None
             f["init"] = True
+            f.pop("bare_final", None)
             # spelled as typing.Self, or as a forward reference by name (string annotation)
             recursive = r.choice(["self", "name"])
             if kind == "attrs" and r.random() < 0.5:
